@@ -208,11 +208,14 @@ def make_socket_module():
 
 
 class SimPoller(Poller):
-    """Level triggered, like select.poll."""
+    """Level triggered.  Two flavours, as the library has two pollers (conf.pollerType): 'poll' reports a socket error as
+    an ERROR event (POLLERR/POLLHUP); 'select' never does - its third list is for out-of-band data - so a refused connect or
+    a reset shows up as readable/writable only and the error has to be fetched with SO_ERROR or by the failing call."""
 
     def __init__(self):
         self.subs = {}
         self.host = NET.current
+        self.flavour = getattr(NET, 'poller_flavour', 'poll')
 
     def subscribe(self, descr, callback, eventMask):
         self.subs[descr] = (callback, eventMask)
@@ -238,9 +241,12 @@ class SimPoller(Poller):
             elif s.state == 'connecting':
                 continue
             elif s.state == 'refused':
-                ev |= POLL_EVENT_TYPE.ERROR if mask & POLL_EVENT_TYPE.ERROR else POLL_EVENT_TYPE.WRITE
+                if self.flavour == 'select':
+                    ev |= mask & (POLL_EVENT_TYPE.READ | POLL_EVENT_TYPE.WRITE)
+                else:
+                    ev |= POLL_EVENT_TYPE.ERROR if mask & POLL_EVENT_TYPE.ERROR else POLL_EVENT_TYPE.WRITE
             else:
-                if s.err and mask & POLL_EVENT_TYPE.ERROR:
+                if s.err and mask & POLL_EVENT_TYPE.ERROR and self.flavour != 'select':
                     ev |= POLL_EVENT_TYPE.ERROR
                 if (s.inbuf or s.eof or s.err) and mask & POLL_EVENT_TYPE.READ:
                     ev |= POLL_EVENT_TYPE.READ
